@@ -270,6 +270,19 @@ func parseLog(raw []byte, ids *IDMap, learn bool) parsedLog {
 	var pl parsedLog
 	pl.ok = true
 	allLines := bytes.Split(raw, []byte("\n"))
+	if learn {
+		// ids are learnt first: in a hand-merged log an item's other events may precede its creation
+		for _, line := range allLines {
+			var ev rawEvent
+			if json.Unmarshal(bytes.TrimSpace(line), &ev) == nil && (ev.Type == "new_task" || ev.Type == "new_epic") {
+				var d map[string]any
+				_ = json.Unmarshal(ev.Data, &d)
+				if id, ok := d["id"].(string); ok {
+					ids.learn(id)
+				}
+			}
+		}
+	}
 	for li, line := range allLines {
 		t := bytes.TrimSpace(line)
 		if len(t) == 0 {
